@@ -809,6 +809,34 @@ def fold_model(scn, replies):
     return out
 
 
+def theorem_instances(ctx, scn, real, replies):
+    """bbmd_once applied: wherever the model evaluates the theorem's (decidable) hypotheses to true
+    on the current world — WF, Pop, Mesh, Home of originator and target — the REAL observations must
+    show the theorem's conclusion: once at every other served node, never at the originator"""
+    n_inst = 0
+    for i, (ev, a) in enumerate(zip(scn["events"], real)):
+        if ev["op"] != "bcast":
+            continue
+        hyp = replies[2 + 2 * i].get("hyp")
+        if not hyp or not hyp.get("ok"):
+            continue
+        homes = [tuple(h) for h in hyp["homes"]]
+        o = tuple(ev["a"])
+        if o not in homes:
+            continue
+        got = collections.Counter(tuple(u[1]) for u in a["obs"] if u[0] == "up")
+        for x in homes:
+            n_inst += 1
+            want = 0 if x == o else 1
+            if got[x] != want:
+                ctx.fail("theorem-instance",
+                         {"stream": "world", "mode": scn["mode"], "layout": scn["layout"], "events": scn["events"][:i + 1]},
+                         "hypotheses of bbmd_once hold (evaluated in Lean) but node %r got the broadcast of %r %d times, "
+                         "theorem says %d" % (x, o, got[x], want), node=list(x), got=got[x], want=want)
+    if n_inst:
+        ctx.count("theorem-instance", n=n_inst)
+
+
 # ---------------------------------------------------------------------------
 # worlds: the oracle (written from the property, independent of the model)
 
@@ -1145,6 +1173,7 @@ def run_world(ctx, vt, scn, drv):
         reqs = model_requests(scn)
         b = drv.ask(reqs)
         model = fold_model(scn, b)
+        theorem_instances(ctx, scn, real, b)
         # compare per event; signature from the model's branch tags
         for i, (ev, a, m) in enumerate(zip(scn["events"], real, model)):
             br = b[2 + 2 * i].get("br", "")
